@@ -18,6 +18,7 @@ type Random struct {
 	endpoints               []endpoint.Endpoint
 	staticWeightRouterCache []int
 	rand                    *rand.Rand
+	randLock                sync.Mutex
 }
 
 var _ selector.Selector = (*Random)(nil)
@@ -38,10 +39,18 @@ func (r *Random) Select(_ selector.Message) (endpoint.Endpoint, error) {
 		return ep, errors.New("random: no such endpoint.Endpoint")
 	}
 	if len(r.staticWeightRouterCache) != 0 {
-		idx := r.staticWeightRouterCache[r.rand.Intn(len(r.staticWeightRouterCache))]
+		idx := r.staticWeightRouterCache[r.intn(len(r.staticWeightRouterCache))]
 		return r.endpoints[idx], nil
 	}
-	return r.endpoints[r.rand.Intn(len(r.endpoints))], nil
+	return r.endpoints[r.intn(len(r.endpoints))], nil
+}
+
+// intn guards the shared *rand.Rand, which is not safe for the concurrent selections
+// that only hold the read lock.
+func (r *Random) intn(n int) int {
+	r.randLock.Lock()
+	defer r.randLock.Unlock()
+	return r.rand.Intn(n)
 }
 
 func (r *Random) Refresh(eps []endpoint.Endpoint) {
